@@ -289,6 +289,24 @@ func ruleParRole(c *Ctx, r *R) {
 			r.undecided(sp.fn, "-", "no parsed child found in "+sp.fn)
 			continue
 		}
+		// every grammar slot of the construct has been seen: a slot whose parse sits where the
+		// analysis cannot follow it (an unbounded loop, a table) would otherwise go unjudged
+		required := map[string][]string{
+			"forNud":    {"init statement (before the first `;`)", "condition (between the `;`s)", "post statement (after the second `;`)", "condition / range operand (no `;` in the header)"},
+			"ifNud":     {"init statement (before the `;`)", "condition (after the `;`)", "condition (no `;` in the header)"},
+			"switchNud": {"switch tag"},
+		}
+		for _, want := range required[sp.fn] {
+			seen := false
+			for _, s := range slots {
+				if s.Slot == want {
+					seen = true
+				}
+			}
+			if !seen {
+				r.undecided(sp.fn+": "+want, c.Pos(c.Func(sp.fn)), "no parse of this slot was found on any analysed path of "+sp.fn+" (parsed inside a loop or through a table the analysis cannot follow): whether it goes through the statement patch is not decided")
+			}
+		}
 		for _, s := range slots {
 			key := s.Fn + ": " + s.Slot
 			if s.Stmt {
